@@ -126,6 +126,14 @@ class ExprMixin(object):
             setattr(self, name, value)
 
 
+def _operand(value, render):
+    """Renders an operand of an operator, parenthesized when it is a unary expression or a negative number, which would otherwise bind differently (eg. to the left of ** or after another unary operator)."""
+    text = render(value)
+    if isinstance(value, UniExpr) or (isinstance(value, (int, float)) and not isinstance(value, bool) and value < 0):
+        return "(%s)" % (text,)
+    return text
+
+
 class UniExpr(ExprMixin):
 
     def __init__(self, op, operand):
@@ -133,10 +141,10 @@ class UniExpr(ExprMixin):
         self.operand = operand
 
     def __repr__(self):
-        return "%s %r" % (opnames[self.op], self.operand)
+        return "%s %s" % (opnames[self.op], _operand(self.operand, repr))
 
     def __str__(self):
-        return "%s %s" % (opnames[self.op], self.operand)
+        return "%s %s" % (opnames[self.op], _operand(self.operand, str))
 
     def __call__(self, obj, *args):
         operand = self.operand(obj) if callable(self.operand) else self.operand
@@ -151,10 +159,10 @@ class BinExpr(ExprMixin):
         self.rhs = rhs
 
     def __repr__(self):
-        return "(%r %s %r)" % (self.lhs, opnames[self.op], self.rhs)
+        return "(%s %s %s)" % (_operand(self.lhs, repr), opnames[self.op], _operand(self.rhs, repr))
 
     def __str__(self):
-        return "(%s %s %s)" % (self.lhs, opnames[self.op], self.rhs)
+        return "(%s %s %s)" % (_operand(self.lhs, str), opnames[self.op], _operand(self.rhs, str))
 
     def __call__(self, obj, *args):
         lhs = self.lhs(obj) if callable(self.lhs) else self.lhs
